@@ -55,7 +55,12 @@ RULE = (
     "tensors are loaded first) x callback x data-file object with or without fileno x single file or "
     "sharded next to pre-existing files (with and without a colliding shard name) x data-file name w.data / "
     "200-245 characters / 246-255 characters (no room for the staging directory name) / nested 3-9 directories "
-    "deep. Every LINE event of "
+    "deep x (symlink destinations) the name leads to its regular file directly / through a chain of 2-3 links "
+    "in two directories / by an absolute link text / through a symlinked directory / through a text with '..', and "
+    "destination-backed tensors read through the first name, the last intermediate link or the file's own name "
+    "x client state: for every external tensor of the model (and for all together) the undisturbed save is "
+    "repeated while the caller holds a live array from tensor.numpy() / np.asarray(tensor) - a view of the "
+    "tensor's memory map, so release() of that tensor raises BufferError wherever the save calls it. Every LINE event of "
     "the recorded save is a death position; every counted call of a file-system function, tensor "
     "method or callback is an exception position (and a mid-write death position for writes); so is every "
     "write(2) below the buffered file object of the data file being produced (refused for good from the k-th one on, "
@@ -65,7 +70,8 @@ RULE = (
     "EXDEV fallback) is kept in place while the run is recorded again and the positions that follow it "
     "(exceptions, mid-write and LINE deaths) are exercised - sampled in quick, all in thorough - plus a "
     "primary failure followed by a failing cleanup call. Before the enumeration (which the time budget cuts "
-    "after a few scenarios per shard) the undisturbed save of every planned scenario is run and judged. "
+    "after a few scenarios per shard) the undisturbed save of every planned scenario is run and judged, together with "
+    "its client-state variants and five sampled single exception positions. "
     "Non-trivial: a destination data file pre-exists, at least one tensor is written, and at least one "
     "death and one exception position were exercised; distinct by scenario description."
 )
@@ -75,7 +81,9 @@ ASSUMPTIONS = [
     "the wrappers take effect because external_data/_core resolve os.replace, shutil.copymode, tempfile.mkdtemp, os.remove, os.rmdir, os.copy_file_range and open at call time; a refactoring that binds them early makes the position counters drop below their floors (inconclusive), never 'held'",
     "the complete new bytes are those of an undisturbed save of the same scenario into another directory (cross-checked against the concatenation of the generated payloads: mismatches are counted, C07 judges layout)",
     "in parallel saves the k-th call / n-th LINE event is schedule dependent; every index of the recorded run is still exercised once",
-    "failures of the cleanup calls (os.remove/os.rmdir) and faults that fire after os.replace returned are judged on destination bytes only",
+    "failures of the cleanup calls (os.remove/os.rmdir) and injected faults that fire after os.replace returned are judged on destination bytes only; a save that raises although no injected fault fired (the exception is its own reaction to the scenario: a tensor whose memory map the client still holds cannot be released, a name is too long) is judged strictly wherever the code let it happen",
+    "'its backing file was actually replaced' is decided per tensor from the inode and content behind the name the tensor itself reads through (links followed), before and after the save",
+    "when the undisturbed reference save returns but leaves the regular file behind the destination unchanged, the complete new bytes are taken to be the concatenation of the generated payloads (report-only counter) and the scenario is still judged",
 ]
 
 logging.getLogger("onnx_ir").setLevel(logging.CRITICAL)
@@ -171,6 +179,13 @@ def plan(tier: str) -> dict:
             "scenarios_enumerated": 3 if quick else 100,
             # pass 1: the undisturbed save of every planned scenario is judged before the enumeration
             "undisturbed_pass|scenarios": 100 if quick else 1500,
+            # ... and repeated while the client holds live arrays of its external tensors
+            "undisturbed_pass|held_array_cases|array of ext_dest/written": 50 if quick else 600,
+            "undisturbed_pass|held_array_cases|save raised|BufferError": 60 if quick else 800,
+            "undisturbed_pass|sampled_exception_positions": 300 if quick else 4000,
+            # symlink destinations that are not a single link straight to the file
+            "undisturbed_pass|scenarios|symlink|chain of links, single file, "
+            "written tensor reads the final file by its own name": 3 if quick else 40,
             "death_points|line": 3000 if quick else 30000,
             "death_points|midwrite": 10 if quick else 150,
             "death_outcome|old": 1500 if quick else 15000,
@@ -618,9 +633,15 @@ class Judge:
             tag = f"{e['kind']}/{e['role']}"
             if not valid and not was_replaced:
                 ctx.count("tensor_checks|VIOLATION invalidated-not-replaced")
+                # argument class: how the destination name leads to its file and which name the tensor reads
+                shape = self.spec.get("link") or "one"
+                via = next((t.get("via") for t in self.spec["tensors"] if t["name"] == e["name"]), None)
+                arg = (f"[dest=symlink-{shape},tensor-via={via}]"
+                       if self.spec["mode"] == "symlink" and shape != "one" and e["kind"] == "ext_dest" else "")
                 self.violate(
-                    f"{where}|{fault_tag}|tensor-invalidated-file-not-replaced",
-                    f"external tensor {e['name']} ({tag}) backed by {e['backing']} is invalid although that file was "
+                    f"{where}|{fault_tag}|tensor-invalidated-file-not-replaced{arg}",
+                    f"external tensor {e['name']} ({tag}) reading {_brief(e.get('loc') or e['backing'])} (regular file: "
+                    f"{_brief(e['backing'])}) is invalid although that file was "
                     f"not replaced (same inode, same bytes). Scenario: {self.describe()}", replay)
                 continue
             if not valid and was_replaced:
@@ -1005,8 +1026,15 @@ def reference_and_recording(judge: Judge, spec: dict) -> tuple[Counter, int, lis
             else:
                 ctx.count("reference_equals_payload_concatenation")
         if judge.new is not None and judge.new == judge.old:
-            ctx.count("scenario_trivial_old_equals_new")
-            return None
+            if expected == judge.old:
+                ctx.count("scenario_trivial_old_equals_new")
+                return None
+            # the undisturbed save returned but the regular file behind the destination still holds
+            # its old bytes (the new data went somewhere else): the statement is silent about saves
+            # that are not interrupted, so this is report-only - but the scenario is still judged,
+            # with the payload concatenation the harness generated itself as the complete new bytes
+            ctx.count("report_only_reference_save_left_destination_file_old")
+            judge.new = expected
     # --- recording run ------------------------------------------------------------------------
     recdir = judge.fresh_dir()
     sc = materialize(spec, recdir)
@@ -1245,6 +1273,7 @@ def enumerate_scenario(ctx, spec: dict, base: str, *, all_variants: bool, pairs:
 
 
 SETUP_SITES = ("mkdtemp", "open", "copymode")
+PASS1_FAULT_SAMPLE = 5     # pass 1: single exception positions sampled per scenario
 # quick tier: per absorbed first fault, how many later positions are sampled (thorough: all)
 PAIR_SAMPLE = {"firsts": 4, "exception": 14, "midwrite": 3, "line": 30}
 
@@ -1539,7 +1568,16 @@ def run(ctx) -> None:
             cdir = os.path.join(base, f"pre{case}")
             os.makedirs(cdir)
             judge = Judge(pre, spec, cdir)
-            reference_and_recording(judge, spec)
+            rec = reference_and_recording(judge, spec)
+            if rec is not None:
+                # a handful of single exception positions of EVERY scenario (in-process, a few ms each; own
+                # random stream): what pass 2 enumerates completely for the few scenarios it reaches
+                prng = ctx.rng(case, salt="pass1-sample")
+                sample = exception_positions(rec[0], prng, False)
+                prng.shuffle(sample)
+                for faults in sample[:PASS1_FAULT_SAMPLE]:
+                    run_exception_case(judge, spec, faults)
+                    ctx.count("undisturbed_pass|sampled_exception_positions")
             shutil.rmtree(cdir, ignore_errors=True)
             ctx.count("undisturbed_pass|scenarios")
             ctx.count("undisturbed_pass|scenarios|" + ("sharded" if spec["sharded"] else "single-file"))
